@@ -4,7 +4,7 @@
 use crate::preds;
 use cgt_core::Transaction;
 use cgt_core::parser::parse_file;
-use mcx::proc::{Scratch, run_tool};
+use mcx::proc::{ProcOut, Scratch, run_tool};
 use mcx::refparse;
 use mcx::run::{Acc, Ctx, Input, Tier, Violation, machinery_failure};
 use rayon::prelude::*;
@@ -416,12 +416,123 @@ pub fn c13(tier: Tier) -> i32 {
             acc.violation(&ctx.findings, "C13", Violation { clause: "cli-parse-differs".into(), input: Input::Text(variants[i].clone()), detail: format!("cgt-tool parse exit {:?}; output differs from the canonical file's; stderr {}", o.code, o.err().chars().take(200).collect::<String>()), context: Value::Null });
         }
     }
+    // the CLI with SEVERAL input files: every cut of a 3-line file into 2 or 3 files, every non-last file ending in
+    // {LF, nothing, a comment without newline, CRLF, CR, a blank line and a comment}: `parse` must print what it prints
+    // for the single file; and a corrupted line in the last file must fail the whole run (nothing silently skipped)
+    {
+        let endings = ["\n", "", " # c", "\r\n", "\r", "\n\n# c"];
+        let cuts: [&[&[usize]]; 3] = [&[&[0], &[1, 2]], &[&[0, 1], &[2]], &[&[0], &[1], &[2]]];
+        let mut cells: Vec<(String, Vec<String>, bool)> = vec![]; // (single-file text, file contents, last line corrupted)
+        for (a, b, c) in tri {
+            let l = [bases[a], bases[b], bases[c]];
+            for cut in cuts {
+                for e in endings {
+                    for corrupt in [false, true] {
+                        let line = |i: usize| if corrupt && i == 2 { l[i].replacen(' ', " BUYY ", 1) } else { l[i].to_string() };
+                        let files: Vec<String> = cut.iter().enumerate().map(|(fi, idx)| {
+                            let body: Vec<String> = idx.iter().map(|i| line(*i)).collect();
+                            format!("{}{}", body.join("\n"), if fi + 1 == cut.len() { "\n" } else { e })
+                        }).collect();
+                        cells.push((format!("{}\n{}\n{}\n", l[0], l[1], l[2]), files, corrupt));
+                    }
+                }
+            }
+        }
+        let results: Vec<(ProcOut, ProcOut)> = cells.par_iter().map(|(single, files, _)| {
+            let sc = Scratch::new();
+            sc.write("single.cgt", single.as_bytes());
+            let mut args = vec!["parse".to_string()];
+            for (i, f) in files.iter().enumerate() {
+                sc.write(&format!("f{i}.cgt"), f.as_bytes());
+                args.push(format!("f{i}.cgt"));
+            }
+            let argv: Vec<&str> = args.iter().map(|s| s.as_str()).collect();
+            (run_tool(&["parse", "single.cgt"], &sc, crate::cli::T), run_tool(&argv, &sc, crate::cli::T))
+        }).collect();
+        for ((single, files, corrupt), (one, many)) in cells.iter().zip(results.iter()) {
+            acc.states += 1;
+            acc.validated += 1;
+            acc.bump("cli:multi-file-parse");
+            let input = Input::Text(files.iter().enumerate().map(|(i, f)| format!("--- file {i} ---\n{f}")).collect::<String>());
+            let cx = json!({"profile": "cli multi-file", "files": files, "single_file": single});
+            if *corrupt {
+                acc.bump("cli:multi-file-parse-with-invalid-line");
+                if many.ok() || !many.stdout.is_empty() {
+                    acc.violation(&ctx.findings, "C13", Violation { clause: "invalid-text-silently-skipped".into(), input, detail: format!("the last file holds an invalid line, yet `cgt-tool parse` over {} files exits {:?} and prints {} bytes", files.len(), many.code, many.stdout.len()), context: cx });
+                }
+            } else if !one.ok() || !many.ok() || one.stdout != many.stdout {
+                acc.violation(&ctx.findings, "C13", Violation { clause: "cli-parse-differs".into(), input, detail: format!("`cgt-tool parse` over {} files (exit {:?}) does not print what it prints for the single file (exit {:?}); stderr {}", files.len(), many.code, one.code, many.err().chars().take(200).collect::<String>()), context: cx });
+            }
+        }
+        ctx.require(acc.get("cli:multi-file-parse") > 0, "no multi-file cell");
+    }
+    // the MCP front-end: corrupted texts after leading blank / comment lines, LF and CRLF: parse_transactions and
+    // calculate_report must refuse them and identify the offending line of the text as it was sent
+    {
+        const PROLOGUES: [&str; 6] = ["", "\n", "\n\n", "   \n", "# c\n", "\t\n# c\n"];
+        let sc = Scratch::new();
+        sc.all_years_config();
+        let mut m = mcx::proc::Mcp::start(&sc);
+        let mut sent: Vec<(String, String, usize, &str)> = vec![];
+        let mut n = 0usize;
+        for (a, b, c) in tri {
+            let l = [bases[a], bases[b], bases[c]];
+            for which in 0..3 {
+                for (what, from, to) in [("keyword replaced by BUYY", 1usize, "BUYY"), ("date replaced by 2024-13-01", 0, "2024-13-01"), ("ticker replaced by ?", 2, "?")] {
+                    for sep in ["\n", "\r\n"] {
+                        for prologue in PROLOGUES {
+                            let mut text = prologue.replace('\n', sep);
+                            for (i, line) in l.iter().enumerate() {
+                                if i == which {
+                                    let mut t: Vec<&str> = line.split(' ').collect();
+                                    t[from] = to;
+                                    text.push_str(&t.join(" "));
+                                } else {
+                                    text.push_str(line);
+                                }
+                                text.push_str(sep);
+                            }
+                            let Err(e) = refparse::parse(&text) else { continue };
+                            for tool in ["parse_transactions", "calculate_report"] {
+                                n += 1;
+                                let id = format!("q{n}");
+                                m.send_raw(&mcx::proc::tool_call(&json!(id), tool, json!({"transactions": text})));
+                                sent.push((format!("\"{id}\""), text.clone(), e.line, tool));
+                                let _ = what;
+                            }
+                        }
+                    }
+                }
+            }
+        }
+        let ids: Vec<String> = sent.iter().map(|s| s.0.clone()).collect();
+        let all = m.wait_for(&ids, std::time::Duration::from_secs(60));
+        let (_, got, _) = m.finish();
+        for (id, text, line, tool) in &sent {
+            acc.states += 1;
+            acc.validated += 1;
+            acc.bump("mcp:corrupted-texts");
+            let cx = json!({"profile": "mcp corruptions", "tool": tool, "variant": tool});
+            match got.get(id).and_then(|v| v.first()) {
+                None => acc.violation(&ctx.findings, "C13", Violation { clause: "mcp-no-answer".into(), input: Input::Text(text.clone()), detail: format!("{tool} got no response (all answered: {all})"), context: cx }),
+                Some(resp) => match mcx::proc::tool_text(resp) {
+                    Ok(t) => acc.violation(&ctx.findings, "C13", Violation { clause: "invalid-text-accepted".into(), input: Input::Text(text.clone()), detail: format!("line {line} is invalid, yet MCP {tool} answers with a result: {}", t.chars().take(120).collect::<String>()), context: cx }),
+                    Err(msg) => {
+                        if reported_line(&msg) != Some(*line) {
+                            acc.violation(&ctx.findings, "C13", Violation { clause: "error-line".into(), input: Input::Text(text.clone()), detail: format!("offending line is {line}, MCP {tool} reports {:?}: {}", reported_line(&msg), msg.chars().take(160).collect::<String>()), context: cx });
+                        }
+                    }
+                },
+            }
+        }
+        ctx.require(acc.get("mcp:corrupted-texts") > 100, "MCP corruption sweep did not run");
+    }
     for k in ["shape:trailing-comment", "shape:CR-only-separator", "shape:CRLF-separator", "shape:no-final-newline", "shape:case-variation", "shape:gap-variation", "shape:blank-or-comment-line-inserted", "corruption:still-valid", "corruption:rejected"] {
         ctx.require(acc.get(k) > 0, &format!("no text exhibited {k}"));
     }
     ctx.bound = json!({"one_line_bases": bases.len(), "max_deviations_one_line": k1, "three_line_files": tri.len(), "max_deviations_three_line": k3});
     ctx.alphabets.push(json!({"name": "lexical deviations", "bases": bases, "deviation_menu": "gap in {two spaces, tab, space-tab-space} at every token gap; lower/mixed case of every keyword, currency code and ticker; line end in {spaces, tab, ' # c', '#c', ' # BUY X 1 @ 1', ' #'}; separator after each line in {LF, CRLF, CR}; final newline absent; blank / whitespace-only / comment line inserted at every line boundary", "corruptions": "delete / duplicate / swap-with-neighbour / replace by {?, 1.2.3, -5, abc, 2024-13-01, 2024-02-30, BUYY, ZZZ} / '#' inserted before, for every token, with LF, CRLF and CR separators, after each of 6 prologues (nothing, one or two blank lines, a whitespace-only line, a comment line, both)"}));
-    ctx.explanation = "States are DSL texts. From each canonical text every set of at most k deviations at distinct sites is applied (deviation-bounded exhaustive search, like a preemption bound) and the real parse_file must return exactly the canonical transaction list (computed by an independent whitespace-tokenising recogniser of the README grammar: omitted currency = GBP, omitted FEES/TAX = 0). Every single-token corruption of every token is classified by the recogniser: valid ones must parse to the recogniser's value, invalid ones must be rejected with an error reporting the corrupted line, never fewer transactions than lines.".into();
+    ctx.explanation = "States are DSL texts. From each canonical text every set of at most k deviations at distinct sites is applied (deviation-bounded exhaustive search, like a preemption bound) and the real parse_file must return exactly the canonical transaction list (computed by an independent whitespace-tokenising recogniser of the README grammar: omitted currency = GBP, omitted FEES/TAX = 0). Every single-token corruption of every token is classified by the recogniser: valid ones must parse to the recogniser's value, invalid ones must be rejected with an error reporting the corrupted line, never fewer transactions than lines. Front-ends: `cgt-tool parse` on deviated files and on every cut of the 3-line files into 2-3 input files with six endings of the non-last files (same output as the single file; an invalid line in the last file fails the run); MCP parse_transactions / calculate_report on corrupted texts after six prologues, LF and CRLF (refused, offending line identified as sent).".into();
     ctx.assumptions = vec!["leading indentation, form feeds and non-breaking spaces are outside the statement".into()];
     ctx.finish(&acc, "model_checking")
 }
